@@ -1,4 +1,145 @@
+"""C10 beyond the exact universe: orders up to 40, float data -> observation events (ObsC10.tla)."""
+import numpy as np
+
+from .. import obs
+from ..kern_util import call_guard
+
+
+def biased_acf(x, maxlag):
+    n = len(x)
+    return np.array([np.sum(x[k:] * np.conj(x[:n - k])) / n for k in range(maxlag + 1)])
+
+
+def herm_toeplitz(r):
+    n = len(r)
+    T = np.empty((n, n), dtype=complex)
+    for i in range(n):
+        for j in range(n):
+            T[i, j] = r[i - j] if i >= j else np.conj(r[j - i])
+    return T
+
+
+def lev_event(r, kind, cplx, order):
+    from spectrum import LEVINSON
+    ev = {'ev': 'levinson', 'kind': kind, 'cplx': bool(cplx), 'n': int(order)}
+    ok, res = call_guard(LEVINSON, r.copy())
+    ok2, res2 = call_guard(LEVINSON, r.copy(), allow_singularity=True)
+    ev['raised'] = not ok
+    ev['raised_allow'] = not ok2
+    if ok:
+        A, P, k = res
+        a = np.concatenate(([1.0], A))
+        T = herm_toeplitz(r)
+        rhs = np.zeros(len(r), dtype=complex)
+        rhs[0] = P
+        r0 = abs(r[0])
+        ev['resid'] = obs.q(np.max(np.abs(T @ a - rhs)) / r0)
+        ev['pform'] = obs.q(abs(P - r[0].real * np.prod(1 - np.abs(k) ** 2)) / r0)
+        ev['ppos'] = bool(np.real(P) > 0)
+        ev['maxk_ppm'] = obs.q(np.max(np.abs(k)), 1e-6)
+        ev['stable'] = bool(np.max(np.abs(np.roots(a))) < 1) if len(a) > 1 else True
+        ev['len_a'] = int(len(A))
+        ev['len_k'] = int(len(k))
+        ev['realout'] = bool(np.isrealobj(A) and np.isrealobj(k))
+        qn = max(1, order // 2)
+        okn, resn = call_guard(LEVINSON, r.copy(), order=qn)
+        oks, ress = call_guard(LEVINSON, r[:qn + 1].copy())
+        if okn and oks:
+            ev['nest'] = obs.q(max(np.max(np.abs(resn[2] - k[:qn])), np.max(np.abs(resn[0] - ress[0])),
+                                   abs(resn[1] - ress[1]) / r0))
+        else:
+            ev['nest'] = obs.QCAP
+    else:
+        for f in ('resid', 'pform', 'maxk_ppm', 'nest', 'len_a', 'len_k'):
+            ev[f] = 0
+        ev['ppos'] = ev['stable'] = ev['realout'] = False
+    return ev
+
+
+def solver_event(which, n, f, resid_of):
+    ev = {'ev': 'solver', 'which': which, 'n': int(n)}
+    ok, x = call_guard(f)
+    ev['raised'] = not ok
+    if ok:
+        x = np.asarray(x)
+        ev['len_x'] = int(x.shape[0])
+        ev['resid'] = obs.q(resid_of(x)) if x.shape[0] == n and np.all(np.isfinite(x)) else obs.QCAP
+    else:
+        ev['len_x'] = 0
+        ev['resid'] = 0
+    return ev
+
+
+def make_events(chk):
+    from spectrum.toeplitz import HERMTOEP, TOEPLITZ
+    from spectrum import CHOLESKY
+    rng = np.random.RandomState(1000 + chk.seed)
+    batch = obs.Batch('ObsC10')
+    orders = list(range(1, 40)) if chk.tier == 'quick' else list(range(1, 40)) * 6
+    for order in orders:
+        for cplx in (False, True):
+            n = 3 * order + 8
+            kind_data = rng.randint(3)
+            x = rng.randn(n)
+            if kind_data == 1:   # tones in noise
+                t = np.arange(n)
+                x = np.cos(0.7 * t) + 0.5 * np.cos(1.9 * t + 1) + 0.3 * rng.randn(n)
+            elif kind_data == 2:  # integer valued
+                x = rng.randint(-5, 6, n).astype(float)
+                x[0] += 1
+            if cplx:
+                x = x + 1j * rng.randn(n)
+            r = biased_acf(x, order)
+            r[0] = r[0].real * 1.02   # small noise floor: clearly positive definite
+            if not cplx:
+                r = r.real.copy()
+            batch.add(lev_event(r, 'pd', cplx, order), {'r': r, 'order': order})
+            # clearly indefinite: break |r_j| <= r_0 at a random lag
+            rb = r.copy()
+            j = rng.randint(1, order + 1)
+            rb[j] = 1.5 * abs(r[0]) * (1 if not cplx else np.exp(1j * rng.rand()))
+            batch.add(lev_event(rb, 'indef', cplx, order), {'r': rb, 'order': order})
+            # solvers on the same positive-definite matrix
+            m = order + 1
+            z = rng.randn(m) + (1j * rng.randn(m) if cplx else 0)
+            T = herm_toeplitz(r.astype(complex))
+            zn = np.max(np.abs(z))
+            batch.add(solver_event('HERMTOEP', m, lambda: HERMTOEP(r[0].real, r[1:].astype(complex), z.astype(complex)),
+                                   lambda xs: np.max(np.abs(T @ xs - z)) / zn), {'r': r, 'z': z})
+            if m <= 24:
+                for method in ('scipy', 'numpy', 'numpy_solver'):
+                    Tm = T if cplx else T.real.copy()
+                    batch.add(solver_event('CHOLESKY:' + method, m, lambda: CHOLESKY(Tm.copy(), z.copy(), method),
+                                           lambda xs: np.max(np.abs(T @ xs - z)) / zn), {'A': Tm, 'b': z, 'method': method})
+            if not cplx:
+                # general diagonally dominant real Toeplitz: all pivots positive
+                tc = rng.randn(order)
+                tr = rng.randn(order)
+                t0 = 1.0 + np.sum(np.abs(tc)) + np.sum(np.abs(tr))
+                G = np.empty((m, m))
+                for i in range(m):
+                    for jj in range(m):
+                        G[i, jj] = t0 if i == jj else (tc[i - jj - 1] if i > jj else tr[jj - i - 1])
+                zr = rng.randn(m)
+                batch.add(solver_event('TOEPLITZ', m, lambda: TOEPLITZ(t0, tc, tr, zr),
+                                       lambda xs: np.max(np.abs(G @ xs - zr)) / np.max(np.abs(zr))),
+                          {'t0': t0, 'tc': tc, 'tr': tr, 'z': zr})
+    return batch
+
+
+def sig(ev, clause):
+    if ev['ev'] == 'levinson':
+        return 'OBS:LEVINSON:%s:%s:%s' % (ev['kind'], clause, 'complex' if ev['cplx'] else 'real')
+    return 'OBS:%s:%s' % (ev['which'], clause)
+
+
 def run(chk):
-    pass
-def replay_case(chk, sig, case):
-    pass
+    batch = make_events(chk)
+    obs.validate(chk, batch, 'obs-large-orders', sig,
+                 lambda ev, cl: '%s of order %s fails clause "%s" (event %s)' % (ev.get('which', 'LEVINSON'), ev['n'], cl, ev))
+    chk.sample('obs-event', batch.events[10], 1)
+
+
+def replay_case(chk, sig_, case):
+    # observation cases are regenerated deterministically from the seed: re-run the batch
+    run(chk)
